@@ -12,8 +12,9 @@ Check(cond, clause) == IF cond THEN TRUE ELSE Rej(clause)
 Step(e) ==
   CASE e.op = "ys" ->      \* start of year through the shared calculator (after an adversarial history)
          /\ Check(e.res = e.pure, "calendar_answer_independent_of_history")
-         /\ IF e.cal \in ArithmeticIds /\ ~(e.cal = "Persian Arithmetic" /\ e.y < 476) /\ e.y >= MinYear(e.cal) /\ e.y <= MaxYear(e.cal)
-            THEN Check(e.res = DayOf(e.cal, e.y, e.m, e.d), "calendar_answer_is_the_pure_function")
+         /\ IF ~(Has(e, "self_only") /\ e.self_only) /\ e.cal \in ArithmeticIds /\ ~(e.cal = "Persian Arithmetic" /\ e.y < 476) /\ e.y >= MinYear(e.cal) /\ e.y <= MaxYear(e.cal)
+            THEN Check(e.res = (IF Has(e, "year_start") /\ e.year_start THEN YearStart(e.cal, e.y) ELSE DayOf(e.cal, e.y, e.m, e.d)),
+                       "calendar_answer_is_the_pure_function")
             ELSE TRUE
     [] e.op = "zc" -> Check(e.cached = e.direct, "caching_zone_returns_what_the_underlying_zone_returns")
     [] e.op = "ident" -> Check(e.same, "repeated_lookups_return_the_same_object")
